@@ -253,6 +253,17 @@ func (e *linEnv) eval(v ssa.Value) lin {
 			}
 		}
 	case *ssa.Parameter:
+		// a parameter of a helper analysed in line (one call site, not part of
+		// the confirmed tree): the argument of that call
+		if x.Parent() != e.fn {
+			if c := e.w.uniqueCallSite(x.Parent()); c != nil {
+				for i, p := range x.Parent().Params {
+					if p == x && i < len(c.Call.Args) {
+						return e.eval(c.Call.Args[i])
+					}
+				}
+			}
+		}
 		return e.leaf("p:"+x.Name(), isUnsigned(x.Type()))
 	}
 	return e.opaque(v)
@@ -433,6 +444,16 @@ func (e *linEnv) guardsAt(b *ssa.BasicBlock) []lin {
 			base = append(base, gs...)
 		} else {
 			pend = append(pend, pending{gs, side})
+		}
+	}
+	// inside a helper analysed in line the comparisons that dominate its one
+	// call site hold as well (SSA values do not change; loads are resolved
+	// against the caller's stores as for any other instruction of the caller)
+	if b.Parent() != e.fn && e.depth < 30 {
+		if c := e.w.uniqueCallSite(b.Parent()); c != nil && c.Block() != nil {
+			e.depth += 10
+			base = append(base, e.guardsAt(c.Block())...)
+			e.depth -= 10
 		}
 	}
 	out := append([]lin{}, base...)
